@@ -312,9 +312,12 @@ impl Env {
     /// Turn panics recorded by the facade since the last call into violations of class
     /// `panic:<file>:<message stem>`.
     pub fn collect_panics(&mut self, context: &str) {
-        let new: Vec<rt::core::PanicRec> = rt::core::with_ctx(|c| c.panics[self.panics_seen.min(c.panics.len())..].to_vec());
-        self.panics_seen += new.len();
-        for p in new {
+        let (all, from): (Vec<rt::core::PanicRec>, usize) = rt::core::with_ctx(|c| (c.panics.clone(), self.panics_seen.min(c.panics.len())));
+        self.panics_seen = all.len();
+        for (i, p) in all.iter().enumerate().skip(from) {
+            if i > 0 && p.message.contains("PoisonError") {
+                continue;
+            }
             let class = format!("panic:{}:{}", file_of(&p.location), stem(&p.message));
             self.violate(&class, format!("[{context}] thread {} panicked at {}: {}", p.role, p.location, rt::core::truncate(&p.message, 300)));
         }
@@ -480,6 +483,7 @@ impl Env {
                     let class = match (want, got) {
                         (Cell::N, _) => "cell:null_became_value",
                         (_, Cell::N) => "cell:value_became_null",
+                        (Cell::S(_), Cell::S(g)) if g.contains("\"M\u{18}") => "cell:wrong_value:lz4_frame_bytes_read_as_string",
                         _ => {
                             // does the value belong to another row of the same column? (shift)
                             let col = t.column(cname);
